@@ -182,7 +182,12 @@ class Lockstep(object):
         def viol(symptom, what):
             ctx.violation({'part': 'history', 'kind': self.cls_name, 'symptom': symptom, 'features': feats},
                           what + ' [history %r]' % (hist,), {'cls': self.cls_name, 'history': hist})
-        items = self.observe(m)
+        try:
+            items = self.observe(m)
+            len(m), list(m.keys()), [m[k] for k in m]
+        except Exception as e:   # noqa - a map that cannot be read back is the violation
+            viol('inconsistent-views', 'after %r the map cannot be read back: %s: %s' % (op, type(e).__name__, str(e)[:80]))
+            return False
         if exp_exc and not got_exc:
             viol('accepted-rejected', 'operation %r should be rejected (%s) but was accepted; map now %r' % (op, exp_exc, items))
             return False
